@@ -718,6 +718,64 @@ class Runner:
             self.stats["locked-requests-refused"] += 1
         return touched
 
+    def op_CONDRACE(self, st):
+        """A conditional PUT / DELETE (If-Match: current ETag) during which another writer changes the resource
+        right after the front end has compared the header with the ETag it looked up: the request must not be
+        executed (412) and the other writer's content must survive - the ETag travels with the write."""
+        from xandikos import web, webdav
+
+        coll = SLOTS[st["coll"]]
+        name = st["name"]
+        mc = self.model.colls.get(coll)
+        self.last = {"op": "CONDRACE", "ack": False, "coll": coll, "name": name}
+        if mc is None or name not in mc.members or not self.cur_etag.get((coll, name)) or self.cfg.get("audit") == "sparse":
+            return set()
+        cur = self.cur_etag[(coll, name)]
+        other = body_of({"body": st["other"]})
+        mine = body_of(st)
+        real = webdav.etag_matches
+        state = {"done": False, "exc": None}
+        runner = self
+
+        def wrapper(condition, actual):
+            res = real(condition, actual)
+            if not state["done"] and res:
+                state["done"] = True
+                try:
+                    store = web.open_store_from_path(runner.world.fs_path(coll), double_check_indexes=False, index_threshold=runner.cfg.get("index_threshold"))
+                    store.import_one(name, st["ctype"], [other])
+                except Exception as e:  # the competing write itself failed: the step proves nothing
+                    state["exc"] = repr(e)
+            return res
+
+        webdav.etag_matches = wrapper
+        try:
+            if st.get("method", "PUT") == "PUT":
+                r = self.req(st["fe"], "PUT", self.member_path(coll, name), [("Content-Type", st["ctype"]), ("If-Match", cur)], mine)
+            else:
+                r = self.req(st["fe"], "DELETE", self.member_path(coll, name), [("If-Match", cur)], None)
+        finally:
+            webdav.etag_matches = real
+        if not state["done"] or state["exc"]:
+            # the other writer did not get in (or failed): an ordinary conditional request, modelled as such
+            self.stats["condrace:not-armed"] += 1
+            if dav.acknowledged(r):
+                if st.get("method", "PUT") == "PUT":
+                    mc.members[name] = MMember(mine, st["ctype"], mc.members[name].ver + 1)
+                else:
+                    del mc.members[name]
+                self.coll_writes[coll] += 1
+                self.last["ack"] = True
+            return {coll}
+        self.stats["condrace:" + st.get("method", "PUT")] += 1
+        mc.members[name] = MMember(other, st["ctype"], mc.members[name].ver + 1)
+        self.coll_writes[coll] += 1
+        if dav.acknowledged(r) or r.status not in (412, 207):
+            self.violation("cond", "stale-if-match-executed-after-concurrent-change", f"{st.get('method', 'PUT')} {coll}/{name} with If-Match {cur}: another writer replaced the resource after the header had been compared; the answer was {r.status} (expected 412, nothing executed)")
+        self.cond_nontrivial = getattr(self, "cond_nontrivial", set())
+        self.cond_nontrivial.add(("CONDRACE", st.get("method", "PUT"), st.get("fe"), False))
+        return {coll}
+
     def op_AUDIT(self, st):
         self.last = {"op": "AUDIT", "ack": False}
         return set(self.model.colls)
